@@ -155,7 +155,7 @@ pub(crate) mod verif_e5 {
     macro_rules! e5 {
         ($name:ident, $n:expr, $chunk:expr) => {
             #[cfg_attr(kani, kani::proof)]
-            #[cfg_attr(kani, kani::unwind(12))]
+            #[cfg_attr(kani, kani::unwind(34))]
             #[cfg_attr(killingspark_zstd_rs_verif, no_mangle)]
             pub fn $name() {
                 e5_body::<$n, $chunk>();
@@ -170,20 +170,20 @@ pub(crate) mod verif_e5 {
     /// the same statement built without the hash feature (flag absent, no trailer, same blocks)
     #[cfg(all(kani, not(feature = "hash")))]
     #[kani::proof]
-    #[kani::unwind(12)]
+    #[kani::unwind(34)]
     fn e5_nohash_block_plus_one() {
         e5_body::<5, 2>();
     }
     #[cfg(all(kani, not(feature = "hash")))]
     #[kani::proof]
-    #[kani::unwind(12)]
+    #[kani::unwind(34)]
     fn e5_nohash_exact_block() {
         e5_body::<4, 4>();
     }
 
     /// reuse: a second compress() on the same object produces the frame a fresh object would (hash re-seeded, matcher reset)
     #[cfg_attr(kani, kani::proof)]
-    #[cfg_attr(kani, kani::unwind(12))]
+    #[cfg_attr(kani, kani::unwind(34))]
     #[cfg_attr(killingspark_zstd_rs_verif, no_mangle)]
     pub fn e5_compress_reuse() {
         let a: [u8; 5] = vk::any();
